@@ -16,6 +16,9 @@ operation order) of
   (timestamp flip, `sub_detectors` map, `old_manifolds[id].take()`, `retain`) with the narrow phase
   an arbitrary function.
 
+`try_update_contacts_eps` is modelled as the CORRECTED code (motion along the normal is bounded too, see
+`fixes/C14-warm-start-normal-motion.diff`); everything else follows the pinned tree.
+
 Feature ids (`fid1/fid2`) and the user data of contacts are not modelled (the property does not
 speak about them); manifold user data is modelled in the workspace machine (it is what makes data
 continuity observable).
@@ -73,8 +76,10 @@ def tucLoop3 (pos12 : Iso3 K) (n1 : V3 K) (dsq : K) : List (Contact3 K) → Bool
     if dist * pt.dist < 0 then (false, pt :: rest)
     else
       let np1 := lp2.sub (n1.smul dist)
-      -- `na::distance_squared(&pt.local_p1, &new_local_p1) > dist_sq_threshold`
-      if dsq < (np1.sub pt.p1).normSq then (false, pt :: rest)
+      -- CORRECTED behaviour (fixes/C14-warm-start-normal-motion.diff); the pinned tree tests only
+      -- `na::distance_squared(&pt.local_p1, &new_local_p1) > dist_sq_threshold`, which does not see motion along the normal
+      let nm := dist - pt.dist
+      if dsq < (np1.sub pt.p1).normSq + nm * nm then (false, pt :: rest)
       else
         let r := tucLoop3 pos12 n1 dsq rest
         (r.1, { pt with dist := dist, p1 := np1 } :: r.2)
@@ -98,7 +103,10 @@ def tucLoop2 (pos12 : Iso2 K) (n1 : V2 K) (dsq : K) : List (Contact2 K) → Bool
     if dist * pt.dist < 0 then (false, pt :: rest)
     else
       let np1 := lp2.sub (n1.smul dist)
-      if dsq < (np1.sub pt.p1).normSq then (false, pt :: rest)
+      -- CORRECTED behaviour (fixes/C14-warm-start-normal-motion.diff); the pinned tree tests only
+      -- `na::distance_squared(&pt.local_p1, &new_local_p1) > dist_sq_threshold`, which does not see motion along the normal
+      let nm := dist - pt.dist
+      if dsq < (np1.sub pt.p1).normSq + nm * nm then (false, pt :: rest)
       else
         let r := tucLoop2 pos12 n1 dsq rest
         (r.1, { pt with dist := dist, p1 := np1 } :: r.2)
